@@ -13,18 +13,29 @@
    (Request.deliver). *)
 From Verif Require Import Lib.Bytes Json.Ast Json.Parse Json.Print.
 From Verif Require Import Fed.Utf8C13 Fed.XMatrix Fed.XMatrixProofs Fed.ServerNameC13 Fed.MediaTypeC13
-     Fed.Base64C13 Fed.Base64C13Proofs Fed.C13Instance Fed.Request Fed.RequestProofs.
+     Fed.ServerNameC13Proofs Fed.Base64C13 Fed.Base64C13Proofs Fed.C13Instance Fed.Request Fed.RequestProofs.
 Open Scope N_scope.
 
-(* the header HTTPRequest emits is read back by ParseAuthorization, field for field: for all
-   origins and destinations of printable ASCII without quote and comma -- every valid server name
-   is one (valid_server_name_plain below) --, every key ID ed25519:[A-Za-z0-9_]+ and every
-   base64 text *)
+(* The header HTTPRequest emits is read back by ParseAuthorization, field for field, for ALL
+   valid server names o d (DNS names, IPv4 and bracketed IPv6 literals, with or without port),
+   key IDs ed25519:[A-Za-z0-9_]+ and base64 texts s (either alphabet) -- no length bound. *)
 Theorem xmatrix_roundtrip : forall o k s d,
+  valid_server_name o = true -> valid_server_name d = true ->
+  key_id_ok k = true -> forallb b64_text_char s = true ->
+  parse_authorization (emit_auth o k s d)
+  = (s_xmatrix, {| x_origin := o; x_dest := d; x_key := k; x_sig := s |}).
+Proof. intros. apply roundtrip_lemma; auto using valid_server_name_plain. Qed.
+
+(* more generally: any origin and destination of printable ASCII without quote and comma *)
+Theorem xmatrix_roundtrip_plain : forall o k s d,
   plain o = true -> plain d = true -> key_id_ok k = true -> forallb b64_text_char s = true ->
   parse_authorization (emit_auth o k s d)
   = (s_xmatrix, {| x_origin := o; x_dest := d; x_key := k; x_sig := s |}).
 Proof. exact roundtrip_lemma. Qed.
+
+(* every valid server name is made of such characters *)
+Theorem valid_server_names_are_plain : forall s, valid_server_name s = true -> plain s = true.
+Proof. exact valid_server_name_plain. Qed.
 
 Section C13.
   Context {skT pkT sigT : Type} (pub : skT -> pkT) (sign : skT -> bytes -> sigT)
@@ -56,8 +67,8 @@ Section C13.
       f_sigs r0 = [] ->
       fr_sign r0 origin keyid sk = Some r1 -> http_request r1 = Some h ->
       f_method r0 <> [] -> utf8_valid (f_method r0) = true -> utf8_valid (f_uri r0) = true ->
-      plain origin = true -> valid_server_name origin = true ->
-      plain (f_dest r0) = true -> f_dest r0 <> [] -> key_id_ok keyid = true ->
+      valid_server_name origin = true -> valid_server_name (f_dest r0) = true ->
+      key_id_ok keyid = true ->
       (forall b, f_content r1 = Some b -> b <> [] /\ utf8_valid b = true /\ canonical b = Some b) ->
       dest_local rc (f_dest r0) = true ->
       lookup_key pkT (rc_store rc) origin keyid = Some e -> k_pub e = pub sk ->
@@ -66,8 +77,10 @@ Section C13.
                  f_method r' = f_method r1 /\ f_uri r' = f_uri r1 /\ f_origin r' = f_origin r1 /\
                  f_dest r' = f_dest r1 /\ f_content r' = f_content r1.
   Proof.
-    destruct IS. intros until e. intros H1 H2 H3 H4 H5 H6 H7 H8 H9 H10 Hk.
-    destruct (key_id_plain _ Hk). eapply sign_send_verify_lemma; eauto.
+    destruct IS. intros until e. intros H1 H2 H3 H4 H5 H6 Ho Hd Hk.
+    destruct (key_id_plain _ Hk).
+    assert (f_dest r0 <> []) by (intro E; rewrite E in Hd; discriminate).
+    eapply sign_send_verify_lemma; eauto using valid_server_name_plain.
   Qed.
 
   (* Binding.  Whatever VerifyHTTPRequest accepts on the strength of the signature the origin
@@ -203,6 +216,8 @@ Example concrete_roundtrip_accepted_and_tamperings_refused :
 Proof. vm_compute. repeat split; reflexivity. Qed.
 
 Print Assumptions xmatrix_roundtrip.
+Print Assumptions xmatrix_roundtrip_plain.
+Print Assumptions valid_server_names_are_plain.
 Print Assumptions sign_send_verify.
 Print Assumptions verify_binds_fields.
 Print Assumptions verify_reports_request.
